@@ -6,19 +6,23 @@ Open Scope nat_scope.
    transforms): from any initial state without expressions, after ANY trace — any number of ports, any interleaving of
    polling passes (one event per port read or skipped), evaluation-task steps, write completions, source changes,
    expression assignments and enable / disable of ports at rest — every quiescent state has every enabled port with an
-   expression hold (at its driver and as reported value) the coerced value of that expression over the current values; the
-   property is silent when the expression has an error or reads a disabled port.
-   [refresh_after_write], [enable_forces_all] and [disable_forces_all] are regenerated from core/ports.py on every run. *)
+   expression hold (at its driver and as reported value) the coerced value of that expression over the current last read
+   values AND the current enabled flags: `$p` of a disabled p is an error there, as in PortValue._eval, so DEFAULT($p, 1) must
+   be 1 and AVAILABLE($p) false once p is disabled.  The property is silent only when the evaluation of the expression or the
+   coercion of its result to the port type is an error.
+   [refresh_after_write], [enable_forces_all] and [disable_forces_all] are regenerated from core/ports.py on every run; the
+   theorem needs all three to be true (C01/GenOk.v; History/C01Old.v refutes each of the other settings). *)
 Theorem C01_convergence :
   forall (pname : pid -> string) (ids : list pid) (now : Z) s0 tr s,
     pristine Z expr s0 ->
     run_wf Z veqb expr pyval (feval pname ids now) (deps pname ids) coerce disable_forces_all s0 tr ->
     run Z veqb expr pyval (feval pname ids now) (deps pname ids) coerce refresh_after_write enable_forces_all disable_forces_all s0 tr = Some s ->
     quiescent Z veqb expr s ->
-    forall q, In q (all_ids s) -> follows Z veqb expr pyval (feval pname ids now) (deps pname ids) coerce s q.
+    forall q, In q (all_ids s) -> follows Z veqb expr pyval (feval pname ids now) coerce s q.
 Proof.
   rewrite refresh_after_write_true, enable_forces_all_true. intros pname ids now.
-  exact (convergence Z veqb veqb_spec expr pyval (feval pname ids now) (deps pname ids) coerce (frame pname ids now) disable_forces_all).
+  exact (convergence Z veqb veqb_spec expr pyval (feval pname ids now) (deps pname ids) coerce (frame pname ids now)
+                     disable_forces_all disable_forces_all_true).
 Qed.
 Print Assumptions C01_convergence.
 
@@ -48,9 +52,11 @@ Proof.
 Qed.
 Print Assumptions C01_no_eval_without_dep_change.
 
-(* evaluation itself depends on nothing but the reported dependencies (discharges the frame hypothesis of the LTS proof) *)
+(* evaluation itself depends on nothing but the reported dependencies — their enabled flags and their last read values
+   (discharges the frame hypothesis of the LTS proof) *)
 Theorem C01_frame :
-  forall (pname : pid -> string) ids now e (s1 s2 : snap Z),
-    (forall d, In d (deps pname ids e) -> s1 d = s2 d) -> feval pname ids now e s1 = feval pname ids now e s2.
+  forall (pname : pid -> string) ids now e (f1 f2 : pid -> bool) (s1 s2 : snap Z),
+    (forall d, In d (deps pname ids e) -> f1 d = f2 d) -> (forall d, In d (deps pname ids e) -> s1 d = s2 d) ->
+    feval pname ids now e f1 s1 = feval pname ids now e f2 s2.
 Proof. exact frame. Qed.
 Print Assumptions C01_frame.
